@@ -22,6 +22,8 @@ WellFormed(t) ==
     /\ t.k \in {"and", "or"} => Len(t.args) >= 1
     /\ \A j \in 1..Len(t.args) : WellFormed(t.args[j])
 
+\* more than 15 opening parentheses or occurrences of the letter n (as in `not`) - a coarse measure of nesting
+Deep(t) == Cardinality({i \in 1..Len(t) : t[i] = 40}) > 15 \/ Cardinality({i \in 1..Len(t) : t[i] = 110}) > 15
 Verdict(o) ==
     LET n == Len(o.names)
         d == Den(o.text, o.names)
@@ -32,6 +34,8 @@ Verdict(o) ==
     ELSE IF d.st \in {"syntax", "undefined"} THEN
         \* not a sentence of the grammar: C02 demands nothing beyond a Sigma error or a tree
         base @@ [v |-> "unspec", info |-> ""]
+    \* nested deeper than any rule in use: a recursive parser may decline - with a Sigma error (checked above)
+    ELSE IF ~o.ret.ok /\ Deep(o.text) THEN base @@ [v |-> "unspec", info |-> "nesting"]
     ELSE IF ~o.ret.ok THEN base @@ [v |-> "violation:RejectsValidCondition", info |-> o.ret.exc]
     ELSE IF ~WellFormed(o.ret.tree) THEN base @@ [v |-> "violation:NotATree", info |-> o.ret.tree.k]
     ELSE LET diff == FirstDiff(ImplExpr(o.ret.tree), d.e, n) IN
